@@ -731,3 +731,106 @@ def check_hist_record(rec, sym=None):
             fail(k, name, "fields-differ-from-spec|" + diff_field(project_tx(tx), want_fields))
             return fails
     return fails
+
+
+# ---------------------------------------------------------------- C07: one long-lived object asked for ids / bytes between edits
+
+def _apply_wire_edit(Tx, tx, act, after):
+    """apply one edit of MC_TxWireHistory to the live pycoin object; `after` is the projection of the fields
+    the spec's object has after the edit (the new value is read from there)"""
+    op, k = act["op"], act["at"] - 1
+    if op == "set_version":
+        tx.version = after[0]
+    elif op == "set_lock":
+        tx.lock_time = after[3]
+    elif op == "set_seq":
+        tx.txs_in[k].sequence = after[1][k][3]
+    elif op == "set_in_script":
+        tx.txs_in[k].script = after[1][k][2]
+    elif op == "set_outpoint":
+        tx.txs_in[k].previous_hash = after[1][k][0]
+        tx.txs_in[k].previous_index = after[1][k][1]
+    elif op == "set_amount":
+        tx.txs_out[k].coin_value = after[2][k][0]
+    elif op == "set_out_script":
+        tx.txs_out[k].script = after[2][k][1]
+    elif op == "set_witness":
+        tx.set_witness(k, list(after[1][k][4]))
+    elif op == "attr_witness":
+        tx.txs_in[k].witness = list(after[1][k][4])          # what Tx.parse does
+    elif op == "append_in":
+        h, idx, script, sq, wit = after[1][k]
+        t = Tx.TxIn(h, idx, script, sq)
+        if wit:
+            t.witness = list(wit)
+        tx.txs_in.append(t)
+    elif op == "remove_in":
+        tx.txs_in.pop()
+    elif op == "append_out":
+        tx.txs_out.append(Tx.TxOut(*after[2][k]))
+    elif op == "remove_out":
+        tx.txs_out.pop()
+    else:
+        raise ValueError(op)
+
+
+def _wire_calls(tx, op):
+    """the observations of one call step: [(name, value)]"""
+    if op == "id":
+        return [("hash", tx.hash()), ("id", tx.id())]
+    if op == "w_id":
+        return [("w_hash", tx.w_hash()), ("w_id", tx.w_id())]
+    return [("as_bin", tx.as_bin()), ("as_hex", tx.as_hex()), ("as_bin(include_witness_data=False)", tx.as_bin(include_witness_data=False)),
+            ("has_witness_data", bool(tx.has_witness_data()))]
+
+
+def check_whist_record(rec, sym):
+    """Run one history of MC_TxWireHistory on ONE pycoin object; every call is also made on a fresh object
+    built from the current fields.  What a call returns must be what the spec derives from the current fields."""
+    fails = []
+    Tx = network(sym).tx
+    acts = rec["acts"]
+    kinds = ",".join(a["op"] for a in acts)
+
+    def fail(step, call, what, detail=None):
+        fails.append(("C07|history|%s|%s|%s" % (sym, call, what),
+                      "%s history [%s], step %d %s: %s" % (sym, kinds, step + 1, call, what),
+                      {"sym": sym, "step": step, "what": what, "detail": detail, "case": rec}))
+
+    try:
+        tx = build_tx(Tx, abs_tx(rec["start"]))
+    except Exception as e:
+        fail(-1, "build", "exc=" + type(e).__name__, repr(e)[:200])
+        return fails
+    last_edit = "none"
+    for k, (act, out) in enumerate(zip(acts, rec["outs"])):
+        fields = abs_tx(out["obj"])
+        op = act["op"]
+        try:
+            if op in ("id", "w_id", "bytes"):
+                fx = out["facts"]
+                txid, wtxid = eval_term(fx["txid"]), eval_term(fx["wtxid"])
+                wire, stripped = expand(fx["wire"]), expand(fx["stripped"])
+                want = {"hash": txid, "id": txid[::-1].hex(), "w_hash": wtxid, "w_id": wtxid[::-1].hex(),
+                        "as_bin": wire, "as_hex": wire.hex(), "as_bin(include_witness_data=False)": stripped,
+                        "has_witness_data": fx["bip144"]}
+                got = _wire_calls(tx, op)
+                gotf = _wire_calls(build_tx(Tx, fields), op)
+                for (name, g), (_, gf) in zip(got, gotf):
+                    if gf != want[name]:
+                        fail(k, name, "fresh-object|not-of-current-fields")
+                    elif g != want[name]:
+                        # right on a fresh object with these fields, wrong on the object that has a past
+                        fail(k, name, "long-lived-object|not-of-current-fields",
+                             {"last_edit": last_edit, "got": _short(g), "want": _short(want[name])})
+            else:
+                _apply_wire_edit(Tx, tx, act, fields)
+                last_edit = op
+        except Exception as e:
+            fail(k, op, "exc=" + type(e).__name__, repr(e)[:200])
+            return fails
+        # the live object holds exactly the fields the spec's object holds (a call changes none)
+        if project_tx(tx) != fields:
+            fail(k, op, "fields-differ-from-spec|" + diff_field(project_tx(tx), fields))
+            return fails
+    return fails
